@@ -238,7 +238,9 @@ pub mod compaction {
 		now: u64,
 		snapshots: Vec<u64>,
 	) -> std::result::Result<Vec<(Vec<u8>, u64, u8, u64)>, String> {
-		let opts = Arc::new(Options::new());
+		// one Options for the whole process: every `Options::new()` starts a clock thread
+		static OPTS: std::sync::OnceLock<Arc<Options>> = std::sync::OnceLock::new();
+		let opts = Arc::clone(OPTS.get_or_init(|| Arc::new(Options::new())));
 		let mut iters: Vec<BoxedLSMIterator<'static>> = Vec::new();
 		for (i, src) in sources.iter().enumerate() {
 			if src.is_empty() {
